@@ -1,0 +1,19 @@
+//go:build verif
+
+package protogen
+
+import (
+	"github.com/tableauio/tableau/options"
+	"github.com/tableauio/tableau/proto/tableaupb"
+)
+
+// VerifRecordedBookOptions returns the workbook options protogen records into
+// the generated proto file of a table workbook, for the given global header
+// option (verification hook; compiled only with the "verif" build tag).
+func VerifRecordedBookOptions(header *options.HeaderOption) *tableaupb.WorkbookOptions {
+	opts := options.NewDefault()
+	opts.Proto.Input.Header = header
+	gen := NewGeneratorWithOptions("protoconf", ".", ".", opts)
+	p := newTableParser("Book", "", "Book.xlsx", gen)
+	return p.wb.Options
+}
